@@ -206,6 +206,10 @@ func VH_C12_suci() {
 	mid := &nasType.MobileIdentity5GS{Len: uint16(len(buf)), Buffer: buf}
 	vrt.Assert(mid.GetSUCI() == want, "MobileIdentity5GS.GetSUCI agrees with SuciToString")
 	vrt.Assert(mid.GetPlmnID() == mcc+mnc, "MobileIdentity5GS.GetPlmnID agrees")
+	// rendering is repeatable: the same element renders to the same text again (also through the dispatcher)
+	vrt.Assert(mid.GetSUCI() == want, "MobileIdentity5GS.GetSUCI renders the same text when called again")
+	s3, _, err3 := SuciToStringWithError(mid.Buffer)
+	vrt.Assert(err3 == nil && s3 == want, "the identity octets still render to the same SUCI after the getters ran")
 }
 
 func VH_C12_suci_nai() {
@@ -258,6 +262,8 @@ func VH_C12_pei() {
 	} else {
 		vrt.Assert(mid.GetIMEISV() == prefix+txt, "MobileIdentity5GS.GetIMEISV agrees")
 	}
+	again, err2 := PeiToStringWithError(mid.Buffer)
+	vrt.Assert(err2 == nil && again == prefix+txt, "the identity octets still render to the same PEI after the getters ran")
 }
 
 func VH_C12_stmsi() {
@@ -271,4 +277,6 @@ func VH_C12_stmsi() {
 	g2, _, err := mid.Get5GSTMSI()
 	vrt.Assert(err == nil && g2 == got, "MobileIdentity5GS.Get5GSTMSI agrees")
 	vrt.Assert(mid.Get5GTMSI() == c12hexOf(t.Octet[3:7]), "5G-TMSI = last four octets")
+	g3, _, err := mid.Get5GSTMSI()
+	vrt.Assert(err == nil && g3 == got, "MobileIdentity5GS.Get5GSTMSI renders the same text when called again")
 }
